@@ -38,6 +38,7 @@ type Line struct {
 	Panic        string         `json:"panic,omitempty"`
 	RoundTrip    bool           `json:"roundTrip"`
 	Back         map[string]any `json:"back,omitempty"`
+	Fields       map[string]string `json:"fields,omitempty"`
 }
 
 func driverSource(s Spec) string {
